@@ -89,23 +89,76 @@ def alphabet_of(src):
     return sorted(out)
 
 
-def run_job(case, job, tracefile, timeout=20):
-    """job: dict(input=bytes, sched=[ints], ops=[(op,arg)], bufsize=int, initsc=int, reset=dict)"""
+ENV = dict(ASAN_OPTIONS="detect_leaks=1:abort_on_error=0:exitcode=99",
+           UBSAN_OPTIONS="print_stacktrace=1:halt_on_error=1:exitcode=98")
+
+
+def job_line(job):
     rj = json.dumps(dict(job["reset"], sched=",".join(map(str, job["sched"])), ops=ops_csv(job["ops"]),
                          initsc=job.get("initsc", 0)))[1:-1]
-    cmd = [case.gen["exe"], "run", tracefile, rj, job["input"].hex() or "", ",".join(map(str, job["sched"])) or "",
-           ops_csv(job["ops"]), str(job.get("bufsize", 0)), str(job.get("initsc", 0))]
-    env = dict(os.environ, ASAN_OPTIONS="detect_leaks=1:abort_on_error=0:exitcode=99", UBSAN_OPTIONS="print_stacktrace=1:halt_on_error=1:exitcode=98")
+    return "\t".join([rj, job["input"].hex(), ",".join(map(str, job["sched"])), ops_csv(job["ops"]),
+                      str(job.get("bufsize", 0)), str(job.get("initsc", 0))]) + "\n"
+
+
+def count_resets(tracefile):
     try:
-        p = subprocess.run(cmd, stdin=subprocess.DEVNULL, stdout=subprocess.DEVNULL, stderr=subprocess.PIPE,
-                           timeout=timeout, env=env)
-        rc = p.returncode; err = p.stderr.decode(errors="replace")
-    except subprocess.TimeoutExpired:
-        rc = -9; err = "timeout"
-    if rc != 0:
-        with open(tracefile, "a") as f:
-            f.write(json.dumps({"e": "Crash", "rc": rc, "msg": err[:1200] + " ... " + err[-300:]}) + "\n")
-    return rc, err
+        return sum(1 for l in open(tracefile, errors="replace") if l.startswith('{"e":"Reset"'))
+    except FileNotFoundError:
+        return 0
+
+
+def run_jobs(case, jobs, tracefile, timeout=60, exe=None, extra_env=None):
+    """all jobs of one scanner in as few processes as possible (the scanner is
+    destroyed and reused between jobs); a job that ends the process (fatal
+    error hook, sanitizer report) is followed by a fresh process"""
+    jf = tracefile + ".jobs"
+    with open(jf, "w") as f:
+        for job in jobs: f.write(job_line(job))
+    env = dict(os.environ, **ENV)
+    if extra_env: env.update(extra_env)
+    first = 0; crashes = 0
+    while first < len(jobs):
+        cmd = [exe or case.gen["exe"], "many", tracefile, jf, str(first)]
+        try:
+            p = subprocess.run(cmd, stdin=subprocess.DEVNULL, stdout=subprocess.DEVNULL, stderr=subprocess.PIPE,
+                               timeout=timeout, env=env)
+            rc = p.returncode; err = p.stderr.decode(errors="replace")
+        except subprocess.TimeoutExpired:
+            rc = -9; err = "timeout after %ds" % timeout
+        done = count_resets(tracefile)
+        if rc != 0:
+            crashes += 1
+            with open(tracefile, "a") as f:
+                if done <= first:   # died before the job's Reset line was written
+                    f.write(json.dumps({"e": "Reset", "input": [], "bufsize": 0, "lost": True, **jobs[first]["reset"]}) + "\n")
+                    done = first + 1
+                f.write(json.dumps({"e": "Crash", "rc": rc, "msg": err[:1500] + " ... " + err[-300:]}) + "\n")
+        if done <= first:
+            done = first + 1     # no progress (should not happen): skip the job
+        first = done
+    return crashes
+
+
+def split_executions(tracefile):
+    """list of lists of lines, one per execution (starting at its Reset)"""
+    out = []
+    try:
+        for l in open(tracefile, errors="replace"):
+            if l.startswith('{"e":"Reset"'):
+                out.append([])
+            if out: out[-1].append(l)
+    except FileNotFoundError:
+        pass
+    return out
+
+
+def projection(lines):
+    """what must not depend on the configuration: everything but the reads"""
+    out = []
+    for l in lines[1:]:
+        if l.startswith('{"e":"Read"'): continue
+        out.append(l)
+    return out
 
 
 def validate(trace_path, cases_path, timeout=600):
